@@ -3,13 +3,14 @@
 T1_MODULES = {
     "C01": ["vt.contracts.legs_rules"],
     "C02": ["vt.contracts.legs_rules"],
-    "C03": ["vt.contracts.utils_maxcounter", "vt.contracts.legs_rules"],
-    "C04": ["vt.contracts.utils_maxcounter", "vt.contracts.legs_rules"],
+    "C03": ["vt.contracts.utils_maxcounter", "vt.contracts.legs_rules", "vt.contracts.core_stats"],
+    "C04": ["vt.contracts.utils_maxcounter", "vt.contracts.legs_rules", "vt.contracts.core_stats"],
     "C06": ["vt.contracts.core_slicing"],
     "C07": ["vt.contracts.utils_maxcounter"],
     "C09": ["vt.contracts.con_cost"],
     "C18": ["vt.contracts.legs_rules"],
     "C19": ["vt.contracts.exponent"],
+    "C20": ["vt.contracts.compressed_tracker"],
 }
 
 LEVEL = {"C05": "exploration", "C12": "exploration"}
